@@ -55,37 +55,35 @@ def run(ck, facts, tier):
             ck.violation(R, "local-trait:fact", tb.where(), "a local trait must get the unconditional fact LocalImplAllowed(trait_ref) (found %s)"
                          % [(p["kind"], p["conds"]) for p in loc])
         if len(ups) == 1 and ups[0]["kind"] == "push_clause" and ups[0]["loop"]:
+            # Which parameters feed IsFullyVisible / IsLocal, relative to the loop index?  (shared/indexsets.py: a small abstract
+            # interpretation over the idioms `v[j] for j in 0..i`, `v[..i]`, `v.iter().take(i)`, `enumerate()`, `let` aliases)
+            from shared import indexsets as ix
+            from kit import for_loops
             node = ups[0]["node"]
-            cond = node["args"][2]
-            ok_order = ups[0]["conds"] == ["IsFullyVisible", "IsLocal"]
-            # prefix: (0..i).map(|j| IsFullyVisible(type_parameters[j]))
-            ranges = [n for n in walk(cond) if n.get("k") == "adt" and n["adt"].endswith("::Range")]
-            incl = [n for n in walk(cond) if (n.get("k") == "adt" and "RangeInclusive" in n["adt"]) or
-                    (n.get("k") == "call" and "RangeInclusive" in n.get("fn", ""))]
-            rng_ok = False
-            loop_var = None
-            if len(ranges) == 1 and not incl:
-                f = dict((a, b) for a, b in ranges[0]["fields"])
-                start = peel(f.get("start"))
-                loop_var = var_name(f.get("end"))
-                rng_ok = start.get("k") == "lit" and "Int(Pu128(0)" in start["v"] and loop_var is not None
-            # the closure of the map builds IsFullyVisible(type_parameters[<closure param>])
-            fv = [n for n in walk(cond) if n.get("k") == "adt" and n.get("v") == "IsFullyVisible"]
-            il = [n for n in walk(cond) if n.get("k") == "adt" and n.get("v") == "IsLocal"]
-            fv_idx = index_var(fv[0], "type_parameters") if fv else set()
-            il_idx = index_var(il[0], "type_parameters") if il else set()
-            prefix_ok = len(fv_idx) == 1 and loop_var not in fv_idx and has_call(cond, "Iterator::map")
-            local_ok = il_idx == {loop_var}
-            # the loop runs over 0..type_parameters.len()
-            loops_ok = any(n.get("k") == "adt" and n["adt"].endswith("::Range") and
-                           any(a == "end" and has_call(b, "len") and "type_parameters" in expr_vars(b) for a, b in n["fields"])
-                           for n in walk(th))
-            if ok_order and rng_ok and prefix_ok and local_ok and loops_ok:
-                ck.ok(R, "upstream-trait:prefix-fully-visible-then-local", "for i in 0..n: (0..i).map(IsFullyVisible(p_j)) ++ IsLocal(p_i)")
+            verdict = None
+            for _l, it, pat, body_ in for_loops(th):
+                if not any(x is node for x in walk(body_)):
+                    continue
+                le = ix.loop_env(it, pat)
+                if le is None:
+                    verdict = "the loop over the type parameters is not `0..v.len()` / `v.iter().enumerate()`"
+                    break
+                base, env, total = le
+                got = []
+                ix.collect(body_, env, base, ("IsFullyVisible", "IsLocal"), got)
+                got = [(v, a) for v, a, n_ in got if any(x is n_ for x in walk(node))]
+                seen_ = sorted(set(got), key=str)
+                want_ = sorted({("IsFullyVisible", ix.PRE_M), ("IsLocal", ix.ELEM)}, key=str)
+                if seen_ == want_ and total and ups[0]["conds"][-1:] == ["IsLocal"]:
+                    verdict = "ok"
+                else:
+                    verdict = "conditions are %s (expected IsFullyVisible of exactly the parameters before i, then IsLocal of parameter i)" % seen_
+                break
+            if verdict == "ok":
+                ck.ok(R, "upstream-trait:prefix-fully-visible-then-local", "for every i: IsFullyVisible(p_j) for exactly j < i, then IsLocal(p_i)")
             else:
                 ck.violation(R, "upstream-trait:prefix-fully-visible-then-local", tb.where(node.get("ln")),
-                             "orphan clause shape changed: order=%s exclusive-prefix-0..i=%s prefix-indexed-by-j=%s local-indexed-by-i=%s "
-                             "loop-over-all-params=%s" % (ok_order, rng_ok, prefix_ok, local_ok, loops_ok))
+                             "orphan clause shape: %s" % (verdict or "the clause is not built inside a loop over the type parameters"))
         else:
             ck.violation(R, "upstream-trait:prefix-fully-visible-then-local", tb.where(),
                          "expected exactly one looped push_clause(LocalImplAllowed, ..) for upstream traits (found %d)" % len(ups))
